@@ -106,7 +106,7 @@ func check(prop, tier, only string, jobs int) int {
 		var kf *KnownFinding
 		for i := range known {
 			k := &known[i]
-			if k.Property == prop && k.Harness == o.c.harness && k.Label == o.c.label && k.Status == "open" {
+			if k.Property == prop && harnessMatch(k.Harness, o.c.harness) && k.Label == o.c.label && k.Status == "open" {
 				kf = k
 			}
 		}
@@ -130,7 +130,7 @@ func check(prop, tier, only string, jobs int) int {
 		if k.Property == prop && k.Status == "open" && !knownSeen[k.ID] && !strings.HasPrefix(k.Harness, "race:") {
 			ran := false
 			for _, n := range names {
-				if n == k.Harness {
+				if harnessMatch(k.Harness, n) {
 					ran = true
 				}
 			}
@@ -188,6 +188,14 @@ func check(prop, tier, only string, jobs int) int {
 	}
 	fmt.Printf("OK property=%s tier=%s harnesses=%d wall=%.1fs\n", prop, tier, len(names), time.Since(t0).Seconds())
 	return 0
+}
+
+// harnessMatch: exact name, or a prefix ending in '*'.
+func harnessMatch(pat, name string) bool {
+	if strings.HasSuffix(pat, "*") {
+		return strings.HasPrefix(name, strings.TrimSuffix(pat, "*"))
+	}
+	return pat == name
 }
 
 func countObl(r *interp.Result) int {
